@@ -125,6 +125,7 @@ pub mod h_c14_t {
 pub mod h_c17 {
     use super::*;
     harnesses! {
+        #[kani::unwind(40)] pure_build_case => p_pure::purity_build;
         #[kani::unwind(130)] pure_parse => p_pure::purity::<_, skel_gen::SkRMxSoa, skel_gen::SkRCnameChain, 0>;
         #[kani::unwind(200)] pure_uncompress => p_pure::purity::<_, skel_gen::SkRCnameChain, skel_gen::SkRMxSoa, 1>;
         #[kani::unwind(260)] pure_compress => p_pure::purity::<_, skel_gen::SkRNocompSoa, skel_gen::SkRNocomp2, 2>;
@@ -201,6 +202,9 @@ pub mod h_c13 {
         #[kani::stub(backtrace::backtrace::trace, crate::p_synth::trace_stub)] #[kani::unwind(70)] synth_ct_ok_txt_escapes => p_synth::concrete_text::<_, 13>;
         #[kani::stub(backtrace::backtrace::trace, crate::p_synth::trace_stub)] #[kani::unwind(70)] synth_ct_ok_ds => p_synth::concrete_text::<_, 14>;
         #[kani::stub(backtrace::backtrace::trace, crate::p_synth::trace_stub)] #[kani::unwind(70)] synth_ct_ok_soa => p_synth::concrete_text::<_, 15>;
+        #[kani::unwind(90)] synth_label_64_owner => p_synth::label_edge::<_, 64, 0>;
+        #[kani::unwind(90)] synth_label_64_ns => p_synth::label_edge::<_, 64, 1>;
+        #[kani::unwind(90)] synth_label_62_owner => p_synth::label_edge::<_, 62, 0>;
         #[kani::unwind(40)] synth_build_a => p_synth::builders::<_, 0>;
         #[kani::unwind(40)] synth_build_aaaa => p_synth::builders::<_, 1>;
         #[kani::unwind(40)] synth_build_ns => p_synth::builders::<_, 2>;
